@@ -32,6 +32,9 @@ struct PanickingIter {
     vals: std::vec::IntoIter<i64>,
     calls: usize,
     k: usize,
+    /// what size_hint() claims (exactly); None = the default (0, None). size_hint is safe code,
+    /// an iterator may answer it wrongly, and the library must not trust it for safety.
+    claim: Option<usize>,
 }
 impl Iterator for PanickingIter {
     type Item = i64;
@@ -41,6 +44,12 @@ impl Iterator for PanickingIter {
         }
         self.calls += 1;
         self.vals.next()
+    }
+    fn size_hint(&self) -> (usize, Option<usize>) {
+        match self.claim {
+            Some(c) => (c, Some(c)),
+            None => (0, None),
+        }
     }
 }
 
@@ -64,17 +73,18 @@ pub fn run(args: &[Sx]) -> Sx {
             let r = if op == 1 { guarded(|| m.map_mut(f)) } else { guarded(|| m.map_mut_with_index(|x, _, _| f(x))) };
             dump_matrix(&m, r.is_none())
         }
-        (3, 6) | (4, 6) => {
+        (3, 6) | (4, 6) | (3, 7) | (4, 7) => {
             let (Some(rows), Some(cols), Some(pos), Some(vals), Some(k)) =
                 (args[1].usize(), args[2].usize(), args[3].usize(), args[4].i64s(), args[5].usize())
             else {
                 return bad_case();
             };
+            let claim = if args.len() == 7 { match args[6].usize() { Some(c) => Some(c), None => return bad_case() } } else { None };
             if rows == 0 || cols == 0 || rows * cols > 4096 {
                 return bad_case();
             }
             let mut m = Matrix::from_flat_row_major((rows, cols), (0..(rows * cols) as i64).collect());
-            let it = PanickingIter { vals: vals.into_iter(), calls: 0, k };
+            let it = PanickingIter { vals: vals.into_iter(), calls: 0, k, claim };
             let r = if op == 3 { guarded(|| m.insert_row_with(pos, it)) } else { guarded(|| m.insert_column_with(pos, it)) };
             dump_matrix(&m, r.is_none())
         }
